@@ -215,7 +215,10 @@ impl Pca<f64> {
         &self,
         prediction: ArrayBase<ndarray::OwnedRepr<f64>, ndarray::Dim<[usize; 2]>>,
     ) -> ArrayBase<ndarray::OwnedRepr<f64>, ndarray::Dim<[usize; 2]>> {
-        prediction.dot(&self.embedding) + &self.mean
+        // the rows of the embedding are orthogonal, but they only have unit length without
+        // whitening; dividing by their squared norms undoes the whitening scale as well
+        let sq_norms = self.embedding.map_axis(Axis(1), |row| row.dot(&row));
+        (prediction / &sq_norms).dot(&self.embedding) + &self.mean
     }
 }
 
